@@ -54,6 +54,22 @@ impl Dump {
     }
     pub fn vf(&mut self, name: &str, v: &[f64]) {
         self.u(&format!("{name}.len"), v.len() as u64);
+        if v.len() > 50_000 {
+            // very long peak lists (day-long gaps): one digest entry per 4096 values keeps dumps cheap
+            for (c, chunk) in v.chunks(4096).enumerate() {
+                let mut h: u64 = 0xcbf2_9ce4_8422_2325;
+                let mut all_ok = true;
+                for x in chunk {
+                    let bits = if x.is_nan() { f64::NAN.to_bits() } else if *x == 0.0 { 0 } else { x.to_bits() };
+                    h = (h ^ bits).wrapping_mul(0x0000_0100_0000_01b3);
+                    h ^= h >> 31;
+                    all_ok &= x.is_finite() && *x >= 0.0;
+                }
+                self.u(&format!("{name}.chunk{c}.digest"), h);
+                self.b(&format!("{name}.chunk{c}.finite_nonneg"), all_ok);
+            }
+            return;
+        }
         for (i, x) in v.iter().enumerate() {
             self.f(&format!("{name}[{i}]"), *x);
         }
@@ -94,6 +110,27 @@ impl Dump {
             Val::F(f) if k == name => Some(*f),
             _ => None,
         })
+    }
+
+    /// Cheap order-sensitive digest of names and canonical values (for dumps with 10^5..10^6 entries).
+    pub fn digest(&self) -> u64 {
+        let mut h: u64 = 0xcbf2_9ce4_8422_2325;
+        let mut mix = |x: u64| {
+            h ^= x;
+            h = h.wrapping_mul(0x0000_0100_0000_01b3);
+            h ^= h >> 29;
+        };
+        for (k, v) in &self.0 {
+            mix(crate::engine::fnv(k.as_bytes()));
+            match v {
+                Val::F(f) => mix(if f.is_nan() { f64::NAN.to_bits() } else if *f == 0.0 { 0 } else { f.to_bits() }),
+                Val::U(u) => mix(*u),
+                Val::B(b) => mix(u64::from(*b)),
+                Val::S(x) => mix(crate::engine::fnv(x.as_bytes())),
+                Val::None => mix(0x5555),
+            }
+        }
+        h
     }
 
     /// One-line rendering with exact float bits (used across processes/builds).
